@@ -90,9 +90,15 @@ def g_nonascii(**kw):
                symbolic='list index (choice variable); the bytes themselves are concrete', asserts=['non-ascii-spelling-rejected'], **kw)
 
 
+def g_refshapes(n):
+    return grp('ref-idstring-shapes', 'VH_refShapes', [[w, str(n)] for w in ('lic', 'doc', 'ctx')], cost=5,
+               bound='every reference name of 1..%d bytes over {a, Z, 9, -, .} as LicenseRef-<name>, DocumentRef-<name>:LicenseRef-x and after MIT OR' % n,
+               symbolic='index into the table of names (choice variable, concretised per path); bytes concrete', asserts=['ref-idstring-accepted'])
+
+
 def c05(tier, seed):
     q = tier == 'quick'
-    return [g_parse_tokens(7 if q else 9), g_render(3 if q else 4), g_nonascii()] + g_lex(tier, seed)
+    return [g_parse_tokens(7 if q else 9), g_render(3 if q else 4), g_nonascii(), g_refshapes(3)] + g_lex(tier, seed)
 
 
 def c13(tier, seed):
